@@ -27,7 +27,7 @@ TIERS = {
 KINDS = ['int64', 'int32', 'float64', 'float32', 'bool', 'str_obj', 'str_pd3', 'string_ext', 'cat', 'dt_ns', 'dt_us',
          'Int64', 'boolean', 'Float64', 'dateobj']
 MUTS = ['copy', 'copy', 'copy', 'value', 'value', 'null_to_value', 'value_to_null', 'float_small', 'float_large', 'rename', 'retype',
-        'move', 'drop', 'add_col', 'add_row', 'remove_row', 'swap_rows', 'retype_and_value']
+        'move', 'drop', 'add_col', 'add_row', 'remove_row', 'swap_rows', 'retype_and_value', 'object_lookalike']
 ENTRIES = ['check_dataframe', 'check_dataframe', 'assertDataFramesEqual', 'assertDataFrameCorrect-parquet',
            'assertDataFrameCorrect-csv', 'assertOnDisk-parquet', 'assertOnDisk-csv', 'assertOnDiskList-parquet', 'assertOnDiskList-csv']
 RULE = ('case = reference frame (unique int key + 1-4 columns over 15 dtypes incl. object/str/string/categorical strings, '
@@ -193,6 +193,18 @@ def gen_case(rng, i):
                 tact['values'] = [int(x) for x in tact['values']]
                 tact['values'][r] = 2 if v else -1
             mut.update(col=tname, row=r, to=tact['kind'], delta=abs(tact['values'][r] - (int(v) if isinstance(v, bool) else v)))
+    elif mk == 'object_lookalike':
+        # same dtype (object), same text when printed, different VALUES: date objects against their ISO strings
+        objs = [c for c in cols[1:] if c['kind'] == 'dateobj' and any(v is not None for v in c['values'])]
+        if not objs:
+            mut = {'kind': 'copy'}
+        else:
+            target = rng.choice(objs)
+            tname = target['name']
+            tact = [c for c in act['cols'] if c['name'] == tname][0]
+            tact['kind'] = 'str_obj'
+            r = rng.choice([t for t in range(n) if target['values'][t] is not None])
+            mut = {'kind': 'object_lookalike', 'col': tname, 'row': r}
     elif mk == 'move':
         if len(act['cols']) < 3:
             mut = {'kind': 'copy'}
